@@ -15,28 +15,37 @@ def main():
     T = q["threads"]
     R = q["rounds"]
 
-    def run(j):
+    def run(j, v=1000):
+        """{v} in a job text is a per-call varying isotope (1000..1996): a stream of ever new bracket atoms, so that
+        bounded caches keep evicting; results are compared after renaming it"""
         fl = j.get("flags", {})
+        text = j["text"].replace("{v}", str(v))
         try:
             if j["kind"] == "dec":
-                r = sf.decoder(j["text"], attribute=bool(fl.get("attribute")))
+                r = sf.decoder(text, attribute=bool(fl.get("attribute")))
             else:
-                r = sf.encoder(j["text"], strict=bool(fl.get("strict", True)), attribute=bool(fl.get("attribute")))
+                r = sf.encoder(text, strict=bool(fl.get("strict", True)), attribute=bool(fl.get("attribute")))
             if fl.get("attribute"):
                 r = [r[0], [[a.index, a.token, [[x.index, x.token] for x in (a.attribution or [])]] for a in r[1]]]
-            return ["ok", r]
+            return json.loads(json.dumps(["ok", r]).replace(str(v), "V")) if "{v}" in j["text"] else ["ok", r]
         except Exception as e:  # noqa
             return ["exc", type(e).__name__]
 
     barrier = threading.Barrier(T)
     results = [[] for _ in range(T)]
 
+    rotate = q.get("rotate", True)
+
     def worker(t):
         barrier.wait()
+        n = 0
         for r in range(R):
             for k in range(len(jobs)):
-                idx = (k + t) % len(jobs)
-                results[t].append((idx, run(jobs[idx])))
+                # rotate: every thread starts with a different job; otherwise all threads make the same
+                # first-ever call at the same moment
+                idx = (k + t) % len(jobs) if rotate else k
+                n += 1
+                results[t].append((idx, run(jobs[idx], 1000 + (n * 7 + t * 131) % 997)))
 
     sys.setswitchinterval(1e-6)
     ths = [threading.Thread(target=worker, args=(t,), daemon=True) for t in range(T)]
